@@ -33,6 +33,20 @@ type PlanC16 struct {
 	// TLS: the transport is upgraded to TLS (SetEncryption) before the stream starts; the writer
 	// then speaks TLS too. Byte accounting on the link would count ciphertext and is not judged.
 	TLS bool `json:"tls,omitempty"`
+	// Invalid lists the positions of envelopes that are well-formed JSON objects of the given size
+	// but no envelope at all: Receive reports an error for each and the stream goes on behind it
+	Invalid []int `json:"invalid,omitempty"`
+}
+
+// exactInvalid returns a JSON object of exactly n bytes that is not an envelope.
+func exactInvalid(id string, n int) string {
+	head := `{"id":"` + id + `","pad":"`
+	tail := `"}`
+	pad := n - len(head) - len(tail)
+	if pad < 0 {
+		pad = 0
+	}
+	return head + strings.Repeat("b", pad) + tail
 }
 
 const minEnvLen = 40
@@ -129,6 +143,11 @@ func genC16(t *simrt.Tape, tier string) interface{} {
 	}
 	p.Trace = t.Draw(4) == 0
 	p.TLS = t.Draw(4) == 0
+	if t.Draw(4) == 0 {
+		for i := 1 + t.Draw(3); i > 0; i-- {
+			p.Invalid = append(p.Invalid, t.Draw(len(p.Sizes)+1))
+		}
+	}
 	if t.Draw(5) == 0 {
 		// a slow writer against a polling receiver: the envelope trickles in over several
 		// receive operations, each of which runs into its context deadline
@@ -165,6 +184,14 @@ func runC16(w *World, pi interface{}) {
 	if L < 64 {
 		return
 	}
+	invalid := map[int]bool{}
+	if !p.CtxAtLast && p.RecvCtxMs == 0 {
+		// (not together with receive deadlines: an error returned at the very instant a deadline
+		// passes would have two possible causes)
+		for _, i := range p.Invalid {
+			invalid[i] = true
+		}
+	}
 	var frames []string
 	for i, s := range p.Sizes {
 		if s < minEnvLen {
@@ -173,7 +200,11 @@ func runC16(w *World, pi interface{}) {
 		if int64(s) > 12*L {
 			s = int(12 * L)
 		}
-		frames = append(frames, exactMessage(fmt.Sprintf("m%d", i), s))
+		if invalid[i] {
+			frames = append(frames, exactInvalid(fmt.Sprintf("m%d", i), s))
+		} else {
+			frames = append(frames, exactMessage(fmt.Sprintf("m%d", i), s))
+		}
 	}
 	cfg := &lime.TCPConfig{ReadLimit: p.Limit}
 	if p.Trace {
@@ -372,6 +403,17 @@ func runC16(w *World, pi interface{}) {
 				continue
 			}
 			break
+		}
+		if invalid[i] && size <= L-2 {
+			if err != nil && rx.Connected() {
+				// reported, as it must be; what follows on the stream is still owed its own verdict
+				w.Count("invalid-envelope-reported")
+				continue
+			}
+			if err == nil {
+				w.Count("invalid-envelope-accepted")
+				continue
+			}
 		}
 		if err != nil {
 			w.Count("rejected")
